@@ -295,9 +295,16 @@ def _clean(shard, ctx, res, only):
                     res.evaluations += 1
                     case = {"shard": shard, "inner": [g, method, mv, fm is not None]}
                     out = str(wd / "clean.fil")
+                    # a custom function on every other configuration: it must see the mask built so far and its result must be OR-ed in
+                    seen_by_custom = []
+                    cf = None
+                    if (g + (fm is not None)) % 2 == 0:
+                        def cf(m, seen_by_custom=seen_by_custom):
+                            seen_by_custom.append(np.array(m, dtype=bool))
+                            return np.roll(np.asarray(m, dtype=bool), 1)
                     try:
                         fil = FilReader(paths)
-                        name, mask = fil.clean_rfi(method=method, threshold=3, freq_mask=fm, mask_value=mv, outfile_name=out, gulp=g, quiet=True, description="vf")
+                        name, mask = fil.clean_rfi(method=method, threshold=3, freq_mask=fm, custom_funcn=cf, mask_value=mv, outfile_name=out, gulp=g, quiet=True, description="vf")
                         means = np.asarray(fil.chan_stats.mean)
                         del fil
                         cm = np.asarray(mask.chan_mask, dtype=bool)
@@ -309,6 +316,12 @@ def _clean(shard, ctx, res, only):
                         continue
                     if Y.shape != X.shape:
                         res.violation({"site": "Filterbank.clean_rfi", "symptom": "cleaned file has a different shape"}, case, f"{Y.shape} vs {X.shape}")
+                        continue
+                    um, sm, cu = (np.asarray(a, dtype=bool) for a in (mask.user_mask, mask.stats_mask, mask.custom_mask))
+                    if not np.array_equal(cm, um | sm | cu) or (cf is not None and (len(seen_by_custom) != 1 or not np.array_equal(seen_by_custom[0], um | sm)
+                                                                  or not np.array_equal(cu, np.roll(um | sm, 1)))) or (cf is None and cu.any()):
+                        res.violation({"site": "Filterbank.clean_rfi", "symptom": "returned mask is not user | statistics | custom"}, case,
+                                      f"chan {cm.astype(int).tolist()} user {um.astype(int).tolist()} stats {sm.astype(int).tolist()} custom {cu.astype(int).tolist()}")
                         continue
                     if fm is not None and not cm[1]:
                         res.violation({"site": "Filterbank.clean_rfi", "symptom": "channel inside the user frequency range is not masked"}, case, f"mask {cm.astype(int).tolist()}")
